@@ -27,7 +27,7 @@ import ofx_server
 import pc_sched
 from core import MachineryError
 
-KINDS = ["bumpnewer", "newer", "older", "uptodate", "error", "garbage", "neterr"]
+KINDS = ["bumpnewer", "newer", "older", "uptodate", "error", "garbage", "invalid", "neterr"]
 
 
 class World:
